@@ -637,4 +637,91 @@ class C13(Prop):
         return "%s nodes=%s" % (case.split(" # ")[1] if " # " in case else "?", n if n < 4 else ("4-8" if n <= 8 else "9+"))
 
 
-PROPS = {p.id: p for p in [C06(), C19(), C11(), C16(), C13()]}
+# ---------------------------------------------------------------------------
+# C10: spans tile the file; literal values checked with Python's own (correctly rounded) conversions
+# ---------------------------------------------------------------------------
+import struct
+
+
+def _f32_bits(x):
+    try:
+        return struct.unpack("<I", struct.pack("<f", x))[0]
+    except OverflowError:
+        return 0x7F800000
+
+
+class C10(Prop):
+    id = "C10"
+    gens = ["GenLexer"]
+    header = 0
+    n_quick = 2000
+    n_thorough = 60000
+    design_ref = "DESIGN.md §4 C10"
+    assumptions = [
+        "model: coq/model/Lexer.v mirrors token_intermediate and every recogniser of preprocess/src/lexer.rs plus TokenStream (hand-written; tied by correspondence on token kinds, payloads and spans); keyword, symbol and suffix tables regenerated from the source",
+        "reference float value = Numbers.dec2f64_core (Flocq binary_normalize / SFdiv_core_binary + binary_round_aux), proved correctly rounded; the executable dec2f64 short-circuits exponents beyond +-400 (outside the property's range) without building 10^|e|",
+        "since the repair the implementation delegates to Rust's str::parse::<f64> (documented as correctly rounded); that contract is what the bit-for-bit correspondence checks",
+        "inputs are valid UTF-8 (the API takes &str), so the invalid-UTF-8 string error is unreachable (utf8_ok = true)",
+        "token streams are observed through preprocess() on directive-free, macro-free texts",
+    ]
+
+    def oracle(self, case, impl, model=None):
+        try:
+            data = bytes.fromhex(case.strip())
+        except ValueError:
+            return None
+        n = len(data)
+        if impl.startswith("PANIC"):
+            return "lexer aborted"
+        if impl.startswith("ERR "):
+            w = impl.split()
+            if int(w[2]) > n:
+                return "diagnostic position %s lies outside the %d-byte file" % (w[2], n)
+            return None
+        if not impl.startswith("OK"):
+            return None
+        pos = 0
+        toks = impl.split()[1:]
+        for i, t in enumerate(toks):
+            m = re.match(r"^(.*)@(\d+)-(\d+)$", t)
+            if not m:
+                return "unreadable token %r" % t
+            name, a, b = m.group(1), int(m.group(2)), int(m.group(3))
+            if a != pos or b < a:
+                return "token %s spans %d-%d but the previous one ended at %d (spans must tile the file)" % (name, a, b, pos)
+            if b == a and not (i == len(toks) - 1 and name == "Endline"):
+                return "empty token %s at %d" % (name, a)
+            pos = b
+            text = data[a:b].decode("latin-1")
+            mi = re.match(r"^(LiteralInt\w*)\((-?\d+)\)$", name)
+            if mi:
+                body = re.sub(r"[uUlL]+$", "", text)
+                if body.startswith("0x"):
+                    v = int(body[2:], 16)
+                elif len(body) > 1 and body[0] == "0" and body[1] in "01234567":
+                    v = int(re.match(r"^[0-7]+", body[1:]).group(0), 8)
+                else:
+                    v = int(body)
+                if v != int(mi.group(2)) or v >= 2 ** 64:
+                    return "integer literal %r lexed as %s" % (text, mi.group(2))
+            mf = re.match(r"^(LiteralFloat\w*)\((\d+)\)$", name)
+            if mf and "#INF" not in text:
+                body = re.sub(r"[fFhHlL]$", "", text)
+                x = float(body)
+                bits = int(mf.group(2))
+                exp = struct.unpack("<Q", struct.pack("<d", x))[0] if mf.group(1) in ("LiteralFloat", "LiteralFloat64") else _f32_bits(x)
+                if bits != exp:
+                    return "float literal %r has bits %d, the nearest value has bits %d" % (text, bits, exp)
+        if pos != n:
+            return "tokens end at %d, the file has %d bytes" % (pos, n)
+        return None
+
+    def nontrivial(self, case, impl):
+        return impl.count("@") >= 2
+
+    def kind(self, case):
+        n = len(case) // 2
+        return "bytes=%s" % ("1-8" if n <= 8 else ("9-32" if n <= 32 else "33+"))
+
+
+PROPS = {p.id: p for p in [C06(), C19(), C11(), C16(), C13(), C10()]}
